@@ -215,7 +215,7 @@ EndRun(m) ==   \* the top code frame executed Return or ran off the end
             IF f.aux[1] # << >>
               THEN (* vm.ops.jump(result_ptr); vm.run(env) in the SAME vm *)
                    IF f.aux[1][1] <= Len(m.code)
-                     THEN SetTop(m, [f EXCEPT !.kind = "modout", !.ptr = f.aux[1][1], !.callp = 0])
+                     THEN SetTop(m, [f EXCEPT !.kind = "modout", !.ptr = f.aux[1][1]])   \* decorated like the body
                      ELSE Fail(m, 0)
               ELSE LET m2 == PopFrame(m)
                    IN SetTop(m2, Push(Top(m2), SymsToTuple(f.syms), f.aux[2]))
